@@ -433,8 +433,26 @@ class ASTRewriter(ast.NodeTransformer):
 
     def visit_For(self, node):
         """Unroll for loops to single iterations"""
-        iter = self.__unroll_arg(self.visit(node.iter))
+        it = self.visit(node.iter)
         rolls = []
+
+        # A name that the body re-assigns is iterated through a copy made before the loop
+        if isinstance(it, ast.Name) and any(
+            isinstance(t, ast.Name) and t.id == it.id
+            for b in node.body
+            for n in ast.walk(b)
+            if isinstance(n, (ast.Assign, ast.AugAssign))
+            for t in (n.targets if isinstance(n, ast.Assign) else [n.target])
+        ):
+            snap = "_forit" + self.uniqd
+            rolls.extend(
+                flatten(
+                    [self.visit(ast.Assign(targets=[ast.Name(id=snap)], value=it))]
+                )
+            )
+            it = ast.Name(id=snap, ctx=ast.Load())
+
+        iter = self.__unroll_arg(it)
         iter = flatten(iter)
 
         for i in iter:
